@@ -44,7 +44,11 @@ func VerifC04Pages() {
 	}
 	r := vRead{forward: true}
 	r.index = nd.Choice("rd.index", 2) == 1
-	switch nd.Choice("rd.shape", 5) {
+	switch nd.Choice("rd.shape", 7) {
+	case 5: // a sort-key range condition together with a Limit
+		r.hashVal, r.rangeOp, r.r1 = "a", ">=", nd.StringN("rd.r1", 1)
+	case 6:
+		r.hashVal, r.rangeOp, r.r1, r.forward = "a", "<", nd.StringN("rd.r1", 1), false
 	case 0:
 		r.scan = true
 	case 1:
